@@ -16,7 +16,16 @@
  *     "front" buffer holding junk; the callbacks redirect every access to the real pixel data (a shadow copy, the way an
  *     X server wraps a framebuffer), so any access that bypasses the callbacks reads junk / leaves the data unchanged.
  *     Mode letter `a`: callbacks installed on the fresh image; `b`: the image is first used once in a composite
- *     without callbacks, then pixman_image_set_accessors is called, then the request runs.
+ *     without callbacks, then pixman_image_set_accessors is called, then the request runs.  Additional letter `o`:
+ *     exactly ONE callback is installed - the reader only for fetch requests (F, FW), the writer only for store
+ *     requests (S only).  Writer-only is generated for exactly the stores that never call READ() on the unchanged
+ *     library, measured by `format probe` (a counting reader): a8r8g8b8 source, OP_SRC, destination of at most 8 bits
+ *     per channel with whole-byte pixels (8, 16, 24, 32 bpp, c8/g8 included) = 29 formats.  1- and 4-bpp stores
+ *     read-modify-write through READ(); every store through the float pipeline (rgba_float source = SW, or a 10-bit /
+ *     sRGB destination) fetches the destination first (dest_get_scanline_wide) - with a NULL reader those would crash
+ *     on the unchanged tree.  Each writer-only request is first run with both callbacks and the counting reader and
+ *     falls back to both callbacks, with an oracle line, if the reader was called.  The YUV fetchers never call READ(), so Y
+ *     requests have no accessor modes at all.
  *   - YUV sources (Y -> a8r8g8b8, YW -> rgba_float, YX -> a2r10g10b10): the 8-bit result is within 3 levels of the
  *     BT.601 formula on the bytes found by an independent description of the yuy2 / yv12 layouts; the wide results
  *     are the library's own 8-bit result widened (byte/255 as float; float -> 10-bit levels). */
@@ -182,6 +191,7 @@ static int exec_line(char *line, FILE *fr)
     const char *mode = tok[2]; int pal = atoi(tok[3]); int x = atoi(tok[4]);
     int late_acc = strchr(mode + 1, 'b') != NULL;
     int use_acc = strchr(mode + 1, 'a') != NULL || late_acc;
+    int one_cb = use_acc && strchr(mode + 1, 'o') != NULL;      /* reader only (fetch) / writer only (store) */
     layout_t L = layout_of(code);
     int bpp = L.bpp;
     if (x < 0 || x > 4096) return 0;
@@ -217,7 +227,7 @@ static int exec_line(char *line, FILE *fr)
             pixman_image_composite32(PIXMAN_OP_SRC, src, NULL, tmp, pixel_reader ? 0 : x, 0, 0, 0, 0, 0, w, 1);
             pixman_image_unref(tmp);
         }
-        if (use_acc) { pixman_image_set_accessors(src, acc_read, acc_write); g_rng[g_nrng].lo = bits; g_rng[g_nrng].hi = bits + n; g_nrng++; }
+        if (use_acc) { pixman_image_set_accessors(src, acc_read, one_cb ? NULL : acc_write); g_rng[g_nrng].lo = bits; g_rng[g_nrng].hi = bits + n; g_nrng++; }
         pixman_image_t *dst;
         static uint32_t ref32[MAXW];
         if (isYW || isYX) {     /* the library's own 8-bit result of the same fetch, for the cross-path oracle */
@@ -307,25 +317,33 @@ static int exec_line(char *line, FILE *fr)
         if (!(acc == 1 || acc == 2 || acc == 3)) return 0;
         if ((long)(x + w) * bpp > (long) n * 8) return 0;
         memcpy(before, row, (size_t) n);
-        uint8_t *bits = storage_init(row, n);        /* the real pixel data */
-        uint8_t *ibits = use_acc ? front_init() : bits;   /* what pixman is given */
+        uint8_t *bits = NULL, *ibits = NULL; long probe_reads = 0;
         int W = (int)((long) n * 8 / bpp);
-        pixman_image_t *dst = pixman_image_create_bits(code, W, 1, (uint32_t *) ibits, n);
-        if (!dst) { fprintf(fr, "no-image\n"); return 1; }
-        if (L.indexed) { make_palette(pal, code); pixman_image_set_indexed(dst, &g_pal); }
-        if (late_acc) {         /* use the image once (as a source) while it has no callbacks */
-            static uint32_t scratch[MAXW];
-            pixman_image_t *tmp = pixman_image_create_bits(PIXMAN_a8r8g8b8, w, 1, scratch, w * 4);
-            pixman_image_composite32(PIXMAN_OP_SRC, dst, NULL, tmp, x, 0, 0, 0, 0, 0, w, 1);
-            pixman_image_unref(tmp);
+        /* writer-only requests run twice: pass 0 with both callbacks and a counting reader (the probe), pass 1 for real */
+        for (int pass = one_cb ? 0 : 1; pass < 2; pass++) {
+            int writer_only = one_cb && pass == 1 && probe_reads == 0;
+            g_nrng = 0; g_reads = g_writes = g_bad = 0;
+            bits = storage_init(row, n);                 /* the real pixel data */
+            ibits = use_acc ? front_init() : bits;       /* what pixman is given */
+            pixman_image_t *dst = pixman_image_create_bits(code, W, 1, (uint32_t *) ibits, n);
+            if (!dst) { fprintf(fr, "no-image\n"); return 1; }
+            if (L.indexed) { make_palette(pal, code); pixman_image_set_indexed(dst, &g_pal); }
+            if (late_acc) {         /* use the image once (as a source) while it has no callbacks */
+                static uint32_t scratch[MAXW];
+                pixman_image_t *tmp = pixman_image_create_bits(PIXMAN_a8r8g8b8, w, 1, scratch, w * 4);
+                pixman_image_composite32(PIXMAN_OP_SRC, dst, NULL, tmp, x, 0, 0, 0, 0, 0, w, 1);
+                pixman_image_unref(tmp);
+            }
+            if (use_acc) { pixman_image_set_accessors(dst, writer_only ? NULL : acc_read, acc_write); g_rng[g_nrng].lo = ibits; g_rng[g_nrng].hi = ibits + n; g_nrng++; }
+            pixman_image_t *src;
+            if (isSW) { for (int i = 0; i < w; i++) { inf_[4 * i] = f_of_bits(vals[4 * i + 1]); inf_[4 * i + 1] = f_of_bits(vals[4 * i + 2]); inf_[4 * i + 2] = f_of_bits(vals[4 * i + 3]); inf_[4 * i + 3] = f_of_bits(vals[4 * i]); }
+                        src = pixman_image_create_bits(PIXMAN_rgba_float, w, 1, (uint32_t *) inf_, w * 16); }
+            else src = pixman_image_create_bits(PIXMAN_a8r8g8b8, w, 1, vals, w * 4);
+            pixman_image_composite32(PIXMAN_OP_SRC, src, NULL, dst, 0, 0, 0, 0, x, 0, w, 1);
+            pixman_image_unref(src); pixman_image_unref(dst);
+            if (pass == 0) { probe_reads = g_reads;
+                if (probe_reads) { snprintf(detail, sizeof detail, "the store called READ() %ld times: a writer-only image would dereference a NULL reader; run with both callbacks", probe_reads); oracle("writer-only-precondition", tok[1], detail); } }
         }
-        if (use_acc) { pixman_image_set_accessors(dst, acc_read, acc_write); g_rng[g_nrng].lo = ibits; g_rng[g_nrng].hi = ibits + n; g_nrng++; }
-        pixman_image_t *src;
-        if (isSW) { for (int i = 0; i < w; i++) { inf_[4 * i] = f_of_bits(vals[4 * i + 1]); inf_[4 * i + 1] = f_of_bits(vals[4 * i + 2]); inf_[4 * i + 2] = f_of_bits(vals[4 * i + 3]); inf_[4 * i + 3] = f_of_bits(vals[4 * i]); }
-                    src = pixman_image_create_bits(PIXMAN_rgba_float, w, 1, (uint32_t *) inf_, w * 16); }
-        else src = pixman_image_create_bits(PIXMAN_a8r8g8b8, w, 1, vals, w * 4);
-        pixman_image_composite32(PIXMAN_OP_SRC, src, NULL, dst, 0, 0, 0, 0, x, 0, w, 1);
-        pixman_image_unref(src); pixman_image_unref(dst);
         /* oracle: frame */
         if (!guards_ok(n)) oracle("store-guard", tok[1], "bytes before/after the image storage changed");
         {
@@ -471,33 +489,36 @@ static void gen_format(int fi, int tier, int general)
     uint32_t v[4 * MAXW];
     int pals[2] = { 0, 0 }; int npal = 1;
     if (L.indexed) { pals[0] = 1; pals[1] = 2 + (int)(g_seed % 997) + fi; npal = 2; }
-    static const char *fmodes[6] = { "s", "sa", "p", "pa", "sb", "pb" };     /* b: callbacks installed after a first use */
-    const char *smodes[3] = { "m", "ra", "rb" }; (void) general;
+    static const char *fmodes[10] = { "s", "sa", "p", "pa", "sb", "pb", "sao", "pao", "sbo", "pbo" };     /* b: callbacks installed after a first use; o: reader only */
+    const char *smodes[5] = { "m", "ra", "rb", "rao", "rbo" }; (void) general;    /* o: writer only */
+    int wo_ok = acc == 1 && (bpp == 8 || bpp == 16 || bpp == 24 || bpp == 32);      /* 8-bit-pipeline stores that never READ() */
     int wide = acc == 2 || acc == 3;
     uint32_t dm = defined_mask(&L);
     if (!(acc == 1 || wide)) return;
 
     /* ---------- fetch to a8r8g8b8 (F) and to rgba_float (FW) */
-    for (int mi = 0; mi < 6; mi++) for (int pi = 0; pi < npal; pi++) {
+    for (int mi = 0; mi < 10; mi++) for (int pi = 0; pi < npal; pi++) {
         if (next_unit()) {
             value_stream(&L, tier, wide);
             if (mi >= 4 && bpp == 16 && !tier) { long k = 0; for (long i = (long) rng_n(3); i < g_nvals; i += 1 + rng_n(5)) g_vals[k++] = g_vals[i]; g_nvals = k; }
             if (mi >= 4 && bpp > 16 && !tier) g_nvals = g_nvals > 1500 ? 1500 : g_nvals;
             fetch_unit("F", name, fmodes[mi], mi, pals[pi], &L, bpp <= 8 || (tier && mi < 4), 24);
         }
-        if (mi < 4 && next_unit()) {
+        if ((mi < 4 || mi == 6) && next_unit()) {
             value_stream(&L, tier, wide);
             if (bpp == 16 && !tier) { long k = 0; for (long i = (long) rng_n(5); i < g_nvals; i += 1 + rng_n(9)) g_vals[k++] = g_vals[i]; g_nvals = k; }
             if (bpp > 16 && !wide && !tier) g_nvals = g_nvals > 1500 ? 1500 : g_nvals;
-            fetch_unit("FW", name, fmodes[mi], mi, pals[pi], &L, bpp <= 8, 12);
+            if (mi == 6) { long k = 0; for (long i = (long) rng_n(3); i < g_nvals; i += 1 + rng_n(5)) g_vals[k++] = g_vals[i]; g_nvals = k ? k : 1; }
+            fetch_unit("FW", name, fmodes[mi], mi, pals[pi], &L, bpp <= 8 && mi < 4, 12);
         }
     }
     /* ---------- store from a8r8g8b8 (S) */
-    for (int mi = 0; mi < 3; mi++) for (int pi = 0; pi < npal; pi++) {
+    for (int mi = 0; mi < 5; mi++) for (int pi = 0; pi < npal; pi++) {
         if (!next_unit()) continue;
+        if (mi >= 3 && !wo_ok) continue;
         value_stream(&L, tier, wide);
-        if (mi == 2 && bpp >= 16 && !tier) { long k = 0; for (long i = (long) rng_n(3); i < g_nvals; i += 1 + rng_n(5)) g_vals[k++] = g_vals[i]; g_nvals = k; }
-        long total = g_nvals + (tier ? 40000 : 3000) / (mi == 2 ? 3 : 1) + 64; long i = 0; int chunk = 0;
+        if (mi >= 2 && bpp >= 16 && !tier) { long k = 0; for (long i = (long) rng_n(3); i < g_nvals; i += 1 + rng_n(5)) g_vals[k++] = g_vals[i]; g_nvals = k; }
+        long total = g_nvals + (tier ? 40000 : 3000) / (mi >= 2 ? 3 : 1) + 64; long i = 0; int chunk = 0;
         if (pals[pi] >= 1) make_palette(pals[pi], code);
         while (i < total) {
             int w = 1 + rng_n(24); if (w > total - i) w = (int)(total - i);
@@ -521,6 +542,7 @@ static void gen_format(int fi, int tier, int general)
         }
     }
     /* ---------- store from rgba_float (SW) */
+    static const char *swmodes[2] = { "m", "ra" };      /* no writer-only mode: the float pipeline always fetches the destination */
     for (int mi = 0; mi < 2; mi++) for (int pi = 0; pi < npal; pi++) {
         if (!next_unit()) continue;
         long total = (tier ? 30000 : 2500); long i = 0; int chunk = 0;
@@ -538,7 +560,7 @@ static void gen_format(int fi, int tier, int general)
                 else f = (float)((double) rng_u32() / 4294967296.0 * 3.0 - 1.0);
                 v[4 * k + c] = bits_of_f(f);
             }
-            gen_store_line("SW", name, smodes[mi], pals[pi], bpp, x, w, v, 4);
+            gen_store_line("SW", name, swmodes[mi], pals[pi], bpp, x, w, v, 4);
             chunk++;
         }
         (void) dm;
@@ -588,6 +610,31 @@ int main(int argc, char **argv)
         for (int i = 0; i < NFORMATS; i++) { pixman_format_code_t c = gen_formats[i].code;
             printf("%s %u %d %d %u %u %u %u %u %u\n", gen_formats[i].name, (unsigned) c, pixman_format_supported_source(c), pixman_format_supported_destination(c),
                    (unsigned) PIXMAN_FORMAT_BPP(c), (unsigned) PIXMAN_FORMAT_TYPE(c), (unsigned) PIXMAN_FORMAT_A(c), (unsigned) PIXMAN_FORMAT_R(c), (unsigned) PIXMAN_FORMAT_G(c), (unsigned) PIXMAN_FORMAT_B(c)); }
+        return 0;
+    }
+    if (argc >= 2 && !strcmp(argv[1], "probe")) {
+        /* how often an OP_SRC store into each destination format calls READ(): 8-bit source (S) and float source (SW) */
+        for (int fi = 0; fi < NFORMATS; fi++) {
+            pixman_format_code_t c = gen_formats[fi].code; int acc = gen_formats[fi].acc;
+            if (!pixman_format_supported_destination(c) || !(acc == 1 || acc == 2 || acc == 3)) continue;
+            int dup = 0; for (int k = 0; k < fi; k++) if (gen_formats[k].code == c) dup = 1;
+            if (dup) continue;
+            long reads[2] = { 0, 0 }; int bpp = PIXMAN_FORMAT_BPP(c);
+            for (int sw = 0; sw < 2; sw++) for (int x = 0; x < 9; x++) for (int w = 1; w <= 5; w += 2) {
+                static uint8_t store[256]; static uint32_t v32[8] = { 0x80402010, 0xffffffff, 0, 0x7f3f1f0f, 0x01020304 }; static float vf[32];
+                for (int i = 0; i < 32; i++) vf[i] = (float) i / 31.f;
+                memset(store, 0x5a, sizeof store);
+                pixman_image_t *dst = pixman_image_create_bits(c, 256 * 8 / bpp > 64 ? 64 : 256 * 8 / bpp, 1, (uint32_t *) store, 256);
+                if (PIXMAN_FORMAT_TYPE(c) == PIXMAN_TYPE_COLOR || PIXMAN_FORMAT_TYPE(c) == PIXMAN_TYPE_GRAY) { make_palette(1, c); pixman_image_set_indexed(dst, &g_pal); }
+                g_shadow = 0; g_nrng = 1; g_rng[0].lo = store; g_rng[0].hi = store + 256; g_reads = 0;
+                pixman_image_set_accessors(dst, acc_read, acc_write);
+                pixman_image_t *src = sw ? pixman_image_create_bits(PIXMAN_rgba_float, w, 1, (uint32_t *) vf, w * 16) : pixman_image_create_bits(PIXMAN_a8r8g8b8, w, 1, v32, w * 4);
+                pixman_image_composite32(PIXMAN_OP_SRC, src, NULL, dst, 0, 0, 0, 0, x, 0, w, 1);
+                pixman_image_unref(src); pixman_image_unref(dst);
+                reads[sw] += g_reads;
+            }
+            printf("%s %d %ld %ld\n", gen_formats[fi].name, bpp, reads[0], reads[1]);
+        }
         return 0;
     }
     if (argc >= 4 && !strcmp(argv[1], "exec")) {
